@@ -383,7 +383,7 @@ fn accepts(prop: &str, tag: &str) -> bool {
         "C05" => matches!(tag, "RES"),
         "C06" => matches!(tag, "C06"),
         "C07" => matches!(tag, "C07"),
-        "C08" => matches!(tag, "C08" | "HUNG"),
+        "C08" => matches!(tag, "C08" | "HUNG" | "PANIC"),
         "C09" => matches!(tag, "C09" | "HUNG"),
         "C10" => matches!(tag, "C10"),
         "C11" => matches!(tag, "C11"),
@@ -792,6 +792,20 @@ impl<'a> Engine<'a> {
                             self.stats.bump("panic_positions_not_reached_under_plan", 1);
                         }
                         self.exec(cx, &p, &default, nt);
+                        if kind.is_async() && nt && !exp.panic_optional {
+                            // the panic must reach the caller while sibling branches of that step are still pending
+                            let gates = choose_gates(c, &exp, GateMode::All, &mut rng);
+                            let (ps, _) = prios(&gates, 2, &mut rng);
+                            let gp = with_gates(&p, &gates);
+                            for pr in ps {
+                                let s = Sched { prio: pr, batch: 1, ..default.clone() };
+                                if let Some((rec, _, _)) = self.exec(cx, &gp, &s, nt) {
+                                    if rec.max_held >= 1 {
+                                        self.stats.bump("panic_runs_with_sibling_gates_held", 1);
+                                    }
+                                }
+                            }
+                        }
                         let role = cx.idx[id as usize].as_ref().map(|m| match m.role {
                             Role::Probe(_) => {
                                 if fl == PANIC {
@@ -836,6 +850,7 @@ impl<'a> Engine<'a> {
             let plans = placements(&ids, &mut rng, if thorough { 128 } else { 12 });
             for p in plans {
                 let mut res: HashMap<(Kind, Option<HK>), (Outcome, Vec<(u16, Vec<u16>)>, Vec<Ev>, Vec<Option<String>>)> = HashMap::new();
+                let mut unnamed: HashMap<(Kind, Option<HK>), Outcome> = HashMap::new();
                 for cx in &group {
                     let rec = match self.exec(cx, &p, &default, true) {
                         Some(r) => r.0,
@@ -854,6 +869,13 @@ impl<'a> Engine<'a> {
                     names.sort();
                     names.dedup();
                     res.insert((cx.case.kind, cx.case.hk), (rec.outcome.clone(), calls, rec.log, names));
+                    if cx.case.kind.is_threads() {
+                        // the same program called from an unnamed thread must still agree with the plain macro
+                        let s2 = Sched { caller: None, ..default.clone() };
+                        if let Some((rec2, _, _)) = self.exec(cx, &p, &s2, true) {
+                            unnamed.insert((cx.case.kind, cx.case.hk), rec2.outcome.clone());
+                        }
+                    }
                 }
                 for cx in &group {
                     let k = cx.case.kind;
@@ -890,6 +912,20 @@ impl<'a> Engine<'a> {
                             stats.bump(if exact { "alias_pairs_compared" } else { "plain_spawn_pairs_compared" }, 1);
                         }
                     };
+                    if let (Some(u), Some(pl)) = (unnamed.get(&(k, cx.case.hk)), res.get(&(k.plain(), cx.case.hk))) {
+                        let same = match (u, &pl.0) {
+                            (Outcome::Done(a), Outcome::Done(b)) => a == b,
+                            (Outcome::Panicked(_), Outcome::Panicked(_)) => true,
+                            _ => false,
+                        };
+                        if !same {
+                            self.stats.viol_count += 1;
+                            if self.stats.viols.len() < 40 {
+                                self.stats.viols.push(Viol { tag: "C07".into(), msg: format!("called from an unnamed thread {} gives {:?} but {} gives {:?}", k.name(), u, k.plain().name(), pl.0), case: case_name(cx.case), replay: format!("--replay {}|{}|{}", case_name(cx.case), plan_str(&p), "prio=;batch=0;spurious=0;caller=-;grace=0;drop=0"), text: cx.case.prog.text.to_string() });
+                            }
+                        }
+                        self.stats.bump("unnamed_caller_pairs_compared", 1);
+                    }
                     if k.alias_target() != k {
                         cmp(k.alias_target(), true, &mut self.stats);
                     } else if k.plain() != k {
